@@ -8,14 +8,16 @@ from harness.common import struct_hash
 from harness.ns import QNAMES
 
 ID = "C13"
-LEAN_MODULES = ["Pypika.Props.C13"]
+LEAN_MODULES = ["Pypika.Props.C13", "Pypika.Props.Builder"]
 TRACE_BUILDER = True   # builder calls made by this check are also run through Pypika.B.step (harness/trace.py)
 THEOREMS = ["Pypika.C13.field_no_alias", "Pypika.C13.arith_no_alias", "Pypika.C13.neg_no_alias", "Pypika.C13.case_no_alias",
             "Pypika.C13.basic_no_alias", "Pypika.C13.complex_no_alias", "Pypika.C13.func_no_alias", "Pypika.C13.fnArg_no_alias",
             "Pypika.C13.field_alias_once", "Pypika.C13.arith_alias_once", "Pypika.C13.neg_alias_once",
             "Pypika.C13.case_alias_once", "Pypika.C13.func_alias_once", "Pypika.C13.aliasPiece_text",
             "Pypika.C13.groupby_item", "Pypika.C13.ref_is_defined", "Pypika.C13.fetch_family_no_groupby_alias",
-            "Pypika.C13.groupby_alias_sticky"]
+            "Pypika.C13.groupby_alias_sticky",
+            # term-level builders (Builder.lean stepT, tied call by call through harness/trace.py)
+            "Pypika.B.as_last_wins"]
 AGREE = ["Pypika.Agree.format_alias", "Pypika.Agree.class_quotes"]
 TRUSTED = ["the alias vocabulary of the generator (aliases are recognised by name in the implementation's token stream)"]
 RULE = ("11 aliasable term kinds x 9 clause positions x 10 classes exhaustively (each with two operand shapes), plus random "
